@@ -114,6 +114,11 @@ func (x *FnExec) call(fr *Frame, cc *ssa.CallCommon, instr ssa.Value, st *State,
 	for _, a := range cc.Args {
 		args = append(args, fr.val(a))
 	}
+	if strings.HasPrefix(key, "sync/atomic.") {
+		if r, ok := x.atomicIntrinsic(fr, key, cc, args, st, g); ok {
+			return r, g
+		}
+	}
 	if x.isPanicCall(key) {
 		if x.top.Panics == "violation" {
 			x.oblige("NOPANIC", "call of "+shortKey(key)+" unreachable", g, tc.False(), pos)
@@ -224,8 +229,9 @@ func (x *FnExec) inlineCall(fr *Frame, fn *ssa.Function, c *Contract, args []Val
 			unsupp("inline %s: missing binding", fn)
 		}
 	}
-	// the callee works directly on the caller's state object chain
-	body := st.child()
+	// the callee works on a child of a frozen copy of the caller's state
+	frozen := &State{x: x, heap: st.heap, cells: st.cells, alloc: st.alloc, base: st.base, parents: st.parents, epoch: st.epoch}
+	body := frozen.child()
 	rv, rst, rg := x.execBody(nf, body, g)
 	if rst == nil {
 		return nil, x.tc.False()
@@ -507,4 +513,36 @@ func (x *FnExec) appendBuiltin(fr *Frame, cc *ssa.CallCommon, st *State, g *Term
 	}
 	x.sliceFacts(res)
 	return res
+}
+
+// sync/atomic on modelled memory: sequential semantics (data-race freedom is a stated assumption).
+func (x *FnExec) atomicIntrinsic(fr *Frame, key string, cc *ssa.CallCommon, args []Value, st *State, g *Term) (Value, bool) {
+	name := key[len("sync/atomic."):]
+	if len(args) == 0 {
+		return nil, false
+	}
+	p := x.ptrPlace(args[0], cc.Args[0].Type())
+	et := deref(cc.Args[0].Type())
+	switch {
+	case strings.HasPrefix(name, "Load"):
+		return x.load(st, p), true
+	case strings.HasPrefix(name, "Store"):
+		x.store(st, p, args[1])
+		return nil, true
+	case strings.HasPrefix(name, "Add"):
+		old := x.load(st, p).(*Term)
+		r, _ := x.arith(token.ADD, old, args[1].(*Term), et, false)
+		x.store(st, p, r)
+		return r, true
+	case strings.HasPrefix(name, "Swap"):
+		old := x.load(st, p)
+		x.store(st, p, args[1])
+		return old, true
+	case strings.HasPrefix(name, "CompareAndSwap"):
+		old := x.load(st, p).(*Term)
+		eq := x.tc.Eq(old, args[1].(*Term))
+		x.store(st, p, x.tc.Ite(eq, args[2].(*Term), old))
+		return eq, true
+	}
+	return nil, false
 }
